@@ -54,6 +54,11 @@ def insert (k : EKey) (v : ETree) : List (EKey × ETree) → List (EKey × ETree
   | [] => [(k, v)]
   | (k', v') :: rest => if k' = k then (k, v) :: rest else (k', v') :: insert k v rest
 
+/-- Python `d.pop(k, None)` -/
+def erase (k : EKey) : List (EKey × ETree) → List (EKey × ETree)
+  | [] => []
+  | (k', v') :: rest => if k' = k then rest else (k', v') :: erase k rest
+
 def kvsOf : ETree → List (EKey × ETree)
   | .obj kvs => kvs
   | _ => []
@@ -472,6 +477,13 @@ def withOwner (ownerRef : ETree) (src view : ETree) : Option ETree :=
     some (.obj (insert (.str "metadata") (.obj (insert (.str "ownerReferences") (.arr refs) md)) (kvsOf view)))
   | _, _ => none
 
+/-- `converted_resource["metadata"].pop("ownerReferences", None)`: a patch that does not add the
+    parent's reference must not carry the target's own list (merge-patch replaces lists) -/
+def dropOwnerRefs (view : ETree) : ETree :=
+  match lookup (.str "metadata") (kvsOf view) with
+  | some (.obj md) => .obj (insert (.str "metadata") (.obj (erase (.str "ownerReferences") md)) (kvsOf view))
+  | _ => view
+
 /-- convert, `_prepare_for_api`, send -/
 def sendPrepared (env : Env) (o : Out) (view : ETree) : Run Unit :=
   match prepareForApi env.render (convert view) with
@@ -507,7 +519,7 @@ def updatePath (f : RF) (env : Env) (loc : Site → Site) (live expected : ETree
         (match withOwner env.ownerRef live converted with
          | some v => pure v
          | none => fail (.permFail (loc .resource) .other))
-      else pure converted)
+      else pure (dropOwnerRefs converted))
     sendPrepared env .patch body
     fail (.retry "patching")
 
